@@ -23,7 +23,7 @@ DerivOps == {"subslice", "get_slice", "offset", "split_at", "get_ref", "get_arra
              "get_atomic_ref", "aligned_as_ref", "aligned_as_mut"}
 GuardOps == {"ptr_guard"}
 WriteOps == {"write", "write_slice", "write_obj", "store", "copy_from", "copy_to_volatile_slice",
-             "arr_copy_to_volatile_slice", "read_volatile_from", "read_exact_volatile_from",
+             "arr_copy_to_volatile_slice", "read_volatile_from", "read_exact_volatile_from", "read_cursor", "read_exact_cursor",
              "read_from_bad_fd", "ref_store", "arr_store", "arr_copy_from"}
 
 CurOf(o) == [kind |-> o.kind, off |-> o.off, len |-> o.len, esz |-> o.esz, n |-> o.n]
@@ -44,7 +44,7 @@ IsZst(e) == \/ ("esz" \in DOMAIN e.a /\ e.a.esz = 0)
 ZeroLen(e) == \/ IsZst(e)
               \/ (e.op \in {"write", "write_slice"} /\ Len(e.a.buf) = 0)
               \/ (e.op \in {"read", "read_slice"} /\ e.a.bl = 0)
-              \/ (e.op \in {"read_volatile_from", "read_exact_volatile_from", "write_volatile_to",
+              \/ (e.op \in {"read_volatile_from", "read_exact_volatile_from", "read_cursor", "read_exact_cursor", "write_volatile_to",
                             "write_all_volatile_to", "write_to_cursor", "write_all_to_cursor"} /\ e.a.count = 0 /\ e.a.addr <= st.cur.len)
 
 \* every field the specification's result has (except the error variant) is logged with the same value
